@@ -170,8 +170,7 @@ func (j *judge) verdict(rc *refCase, o *out) *disc {
 func sigOf(fe *frontEnd, d *disc, m *meta) string {
 	switch d.cat {
 	case "num":
-		ic, fc, zc, ec := numClasses(d.lit)
-		return core.Sig("num", fe.name, fe.path, "int="+ic, "frac="+fc, "fzeros="+zc, "exp="+ec, d.kind)
+		return core.Sig(numSig(fe.name, fe.path, d.lit, d.kind)...)
 	case "str":
 		it := m.item
 		if it == "" {
@@ -181,8 +180,7 @@ func sigOf(fe *frontEnd, d *disc, m *meta) string {
 	case "error":
 		switch m.family {
 		case "numbers":
-			ic, fc, zc, ec := numClasses(m.lit)
-			return core.Sig("num", fe.name, fe.path, "int="+ic, "frac="+fc, "fzeros="+zc, "exp="+ec, d.kind)
+			return core.Sig(numSig(fe.name, fe.path, m.lit, d.kind)...)
 		case "strings", "uescape":
 			return core.Sig("str", fe.name, fe.path, "item="+m.item, "ctx="+m.ctx, d.kind)
 		}
@@ -333,9 +331,15 @@ func runStrings(j *judge, next func() bool) {
 				for l := 1; l < len(cur); l++ {
 					for s := 0; s+l <= len(cur); s++ {
 						if failsAlone(p, cur[s:s+l])&feBit != 0 {
+							if l > 1 && hasEscapedPair(seqText(cur[s:s+l])) {
+								return "u-pair" // a high and a low escape from adjacent items form a pair
+							}
 							return seqClasses(cur[s : s+l])
 						}
 					}
+				}
+				if len(cur) > 1 && hasEscapedPair(seqText(cur)) {
+					return "u-pair"
 				}
 				return seqClasses(cur)
 			})
